@@ -2,7 +2,7 @@
    (The pipeline-level statement "invalid after the last round => nothing is
    published" is Props/C02.v / the pipeline model.) *)
 From AM.Model Require Import Base Path Targets ReleaseCheck Download Stage ReleaseStage.
-From AM.Lemmas Require Import ReleaseLemmas ReleaseStageLemmas ReleaseStageExamples.
+From AM.Lemmas Require Import StageRunLemmas ReleaseLemmas ReleaseStageLemmas ReleaseStageExamples.
 From Coq Require Import Permutation.
 Open Scope string_scope.
 Open Scope list_scope.
@@ -53,3 +53,14 @@ Example release_stage_gives_up_after_all_rounds :
   release_stage 3 y_relq (fun _ => y_u) (fun _ => false) y_stale_skel = (3, None) /\
   release_stage 0 y_relq (fun _ => y_u) (fun _ => false) y_stale_skel = (1, None).
 Proof. exact release_stage_gives_up. Qed.
+
+(* ... and release files that validate as the upstream has them are accepted on the first attempt, whatever skel
+   held before (stale flavours of an earlier run included): one round, and skel then holds exactly the upstream's
+   release files. *)
+Theorem consistent_release_files_validate_at_once :
+  forall retries relq u ann validf skel,
+  disjoint_files relq -> (forall f, In f relq -> rel_definite u ann f) ->
+  (forall s, announced_rel ann relq s -> validf s = true) ->
+  exists rs s, release_stage retries relq (fun _ => u) validf skel = (1, Some (rs, s)) /\ announced_rel ann relq s.
+Proof. exact release_stage_first_attempt. Qed.
+Print Assumptions consistent_release_files_validate_at_once.
